@@ -102,7 +102,7 @@ impl Setters {
             }
         };
         // twin that only sees the accepted calls
-        let mut b = Runner::<T>::fresh(&cfg, Sig::noise(s1)).unwrap();
+        let mut b = Runner::<T>::fresh_direct(&cfg, Sig::noise(s1)).unwrap();
         let (lo, hi) = (cfg.lo(), cfg.hi());
         let (rlo, rhi) = (1.0 / cfg.max_rel, cfg.max_rel);
         let proc_op = Op::Proc { path: Path::Exact, slack_in: 0, slack_out: 0, mask: None, empty_inactive: false };
